@@ -34,6 +34,30 @@ def k_checkinit(base, chk):
     paths = k.run([X.SliceV(arr, (), 0, 1, 1)])
     pan = [p for p in paths if p.outcome[0] != "ret"]
     chk.add(Ob("checkInitialized: never panics when some limb of X or Y is non-zero (%d feasible paths, branch feasibility by z3)" % len(paths), "unsat" if not pan else "sat", time.time() - t0, [fname], "BV"))
+    # (d) the real guard over several arguments: a zero value at ANY position panics; all-initialised never panics
+    for n in (2, 3):
+        for bad in list(range(n)) + [None]:
+            k = K.BVK(base, chk, fname, label="checkInitialized")
+            ptrs = []
+            for j in range(n):
+                if j == bad:
+                    ptrs.append(X.Ptr(k.ex.new_obj(k.path, PT, name="zero point")))
+                else:
+                    cells = [[]]
+                    lx = [k.bv("p%d.x%d" % (j, i), 64) for i in range(5)]
+                    ly = [k.bv("p%d.y%d" % (j, i), 64) for i in range(5)]
+                    cells += [list(lx), list(ly), [k.bv("p%d.z%d" % (j, i), 64) for i in range(5)], [k.bv("p%d.t%d" % (j, i), 64) for i in range(5)]]
+                    k.path.pc.append(z3.Or([l != 0 for l in lx + ly]))
+                    ptrs.append(X.Ptr(k.ex.new_obj(k.path, PT, name="p%d" % j, init=cells)))
+            arr = k.ex.new_obj(k.path, ("array", n, prog.T("*" + E + "Point")), init=list(ptrs))
+            t0 = time.time()
+            paths = k.run([X.SliceV(arr, (), 0, n, n)])
+            if bad is None:
+                okp = all(p.outcome[0] == "ret" for p in paths)
+                chk.add(Ob("checkInitialized(%d initialised points): never panics (%d feasible paths)" % (n, len(paths)), "unsat" if okp else "sat", time.time() - t0, [fname], "BV"))
+            else:
+                okp = paths and all(p.outcome[0] == "panic" for p in paths)
+                chk.add(Ob("checkInitialized(%d points, #%d is the zero value): every feasible path panics (%d paths)" % (n, bad, len(paths)), "unsat" if okp else "sat", time.time() - t0, [fname], "BV"))
     # (c) a valid point cannot have X and Y both with all-zero limbs: (0,0) is not on the curve (Z != 0)
     chk.fact("value (X,Y) = (0,0) with Z != 0 violates -X^2+Y^2 = Z^2 + d*T^2 together with XY = ZT (then T = 0, so 0 = Z^2)", True, [], "arithmetic")
 
@@ -153,5 +177,5 @@ def run(chk):
                     return args
                 items.append(("%s pos %d" % (meth, bad), lambda meth=meth, fname=fname, build=build, bad=bad: expect_panic(base, chk, "%s[input #%d uninitialized]" % (meth, bad), fname, build)))
     run_kernels(chk, items)
-    L1m.settle(chk, [o for o in chk.obs if "panics" in o.name and not o.ok()], lambda: misuse_battery(chk.seed), "misuse panics")
+    L1m.settle(chk, [o for o in chk.obs if "panic" in o.name and not o.ok()], lambda: misuse_battery(chk.seed), "misuse panics")
     chk.samples = [o.j() for o in chk.obs if "every feasible path panics" in o.name][:6]
